@@ -369,3 +369,21 @@ def nontrivial(o):
 def finding_key(o, clause):
     c = o["in"]
     return "%s/%s%s" % (clause, c["kind"], "/" + c["via"] if "via" in c else "")
+
+
+MANIFEST = {
+    "text": ("Crowsetta.tla states the import arithmetic (seconds, or sample index over the file rate sr/te, divided by te once; "
+             "frequencies times te once) in exact rationals, the export rules (bounds, floor(t x sr), Nyquist cap, geometry kind x cast x "
+             "ignore_errors x raise_on_time_geometries -> converted / skipped / raises) and the two label cascades as decision tables "
+             "whose allowed outcomes are the union of the docstring reading and the property-summary reading. MC_Crowsetta.tla runs the "
+             "conversions as a state machine (per element: seconds-or-samples, adjust once; per event: convert / skip / raise; the "
+             "cascades as implemented) and TLC checks Impl => Req plus the laws (te exactly once on every path, export o import = "
+             "identity for te = 1 and value-only labels, cascade table total and deterministic, index wraps, kept events in order) on "
+             "every case of the bounded universe; each case is then executed on the real conversion functions (directly and through "
+             "segment / bbox / sequence / annotation) and TLC validates the recorded observations clause by clause. Bounded-exhaustive on "
+             "dyadic lattices, plus seeded random cases on larger lattices (incl. te = 10, 3, 5/2 with limb-number comparison)."),
+    "note": ("trusted: TLC, binder checks/c10.py + vt/geom.py (encoders), exact float arithmetic on dyadic units; small-scope hypothesis "
+             "beyond the enumerated lattice. Not decided: adjust_time_expansion=False, defaults of cast/ignore_errors, whether ignore_errors "
+             "may swallow non-ValueError exceptions, select_by_key without an explicit value_only (value or key:value both accepted)."),
+    "design_ref": "DESIGN.md section 4 C10",
+}
